@@ -72,12 +72,13 @@ Vals(S, t) ==
 
 \* ---- the types: one field "f" of each shape ---------------------------------
 \* (three of the container shapes get the EMPTY literal as their default: "= []" / "= {}")
-HasSimpleDefault(t) == t \in { B("bool"), B("i16"), B("i32"), B("i64"), B("double"), B("string"), Ref("Color"), Ref("MyInt"), ListOf(B("i32")),
+HasSimpleDefault(t) == t \in { B("bool"), B("i16"), B("i32"), B("i64"), B("double"), B("string"), Ref("MyStr"), Ref("Color"), Ref("MyInt"), ListOf(B("i32")),
                               ListOf(B("string")), SetOf(B("i32")), MapOf(B("string"), B("i32")), Ref("MyList") }
 SimpleDefault(t) ==
   CASE t = B("bool") -> I(1) [] t = B("i16") -> I(258) [] t = B("i32") -> I(16909060) [] t = Ref("MyInt") -> I(16909060)
     [] t = B("i64") -> L64(<<0,0,0,7>>) [] t = B("double") -> Dbl(<<16393,8699,21572,11544>>)     \* pi: 17 significant digits in the IDL
-    [] t = B("string") -> Str(<<104,105>>) [] t = Ref("Color") -> I(2) [] t = ListOf(B("i32")) -> LV(<< I(0), I(16909060) >>)
+    \* strings that need care in every quoting style: CR LF, tab, both quotes, backslash, a two-byte character; backquotes, NUL, BEL
+    [] t = B("string") -> Str(<<97,13,10,98,9,34,39,92,195,169>>) [] t = Ref("MyStr") -> Str(<<96,10,96,0,7>>) [] t = Ref("Color") -> I(2) [] t = ListOf(B("i32")) -> LV(<< I(0), I(16909060) >>)
     [] t = ListOf(B("string")) -> LV(<<>>) [] t = SetOf(B("i32")) -> SV(<<>>) [] t = MapOf(B("string"), B("i32")) -> MV(<<>>) [] t = Ref("MyList") -> LV(<<>>)
 
 TypeSpecs ==
